@@ -834,7 +834,7 @@ def oracle_c12(runs):
 
     class IE(pyenum.IntEnum):
         A = 1
-    vals = [None, '', '   ', 'x', True, False, 0, 7, -3, 1.005, 2.675, -0.001, 1e20, MyInt(3), MyStr('q'), MyFloat(1.5), IE.A,
+    vals = [None, '', '   ', 'x', True, False, 0, 7, -3, 1.005, 2.675, -0.001, 1e20, 0.0005, 0.00049, -0.0004, 1e-5, 0.004, 0.4, -0.5, MyInt(3), MyStr('q'), MyFloat(1.5), IE.A,
             henum.filing_status.Single, henum.taxpayer_or_spouse.spouse, [1], (1, 2), 10 ** 30]
     mk = [('str', lambda fn: hf.StringField('l', fn), str, ''), ('bool', lambda fn: hf.BooleanField('l', fn), bool, False),
           ('int', lambda fn: hf.IntegerField('l', fn), int, 0), ('float2', lambda fn: hf.FloatField('l', fn), float, 0.0),
